@@ -45,6 +45,9 @@ func RandStringRunes(n int64, s string) string {
 	if len(s) == 0 {
 		s = letters
 	}
+	if n < 0 {
+		n = 0
+	}
 	var letterRunes = []rune(s)
 	b := make([]rune, n)
 	randSourceMx.Lock()
